@@ -39,13 +39,55 @@ def segs(prog):
     return out
 
 
-def convert(path, idx):
+FICT_STACK = 0x7ff000000000      # Exec!BaseFor's fictitious stack base (direction B)
+
+
+def convert_engine(b, end, idx):
+    """A run of compiled code (hook H5): no steps were observed; TraceInterp!EngStart / Silent /
+    EngEnd run the machine from the recorded inputs and compare the recorded result."""
+    if b["allowed"]:
+        return None, "registered ranges (their bytes are not captured)"
+    if end["k"] != "ok":
+        return None, "compiled code was not run (" + end["msg"][:40] + ")"
+    prog = b["prog"]
+    if len(prog) % 8 != 0 or not prog:
+        return None, "program is not a whole number of slots"
+    if any(prog[k] == 0x85 and prog[k + 1] >> 4 == 0 for k in range(0, len(prog), 8)):
+        return None, "compiled run with helper calls (helper results are not observable there)"
+    mb = list(b["mbuff"])
+    mem_base = word(b["mem_base"]) if b["mem"] else 0
+    if b["fixed"]:
+        # the fixed-metadata VM stores the packet's start / end addresses at its two offsets (C09)
+        for off, v in ((b["fixed"][0], word(b["mem_base"])), (b["fixed"][1], (word(b["mem_base"]) + len(b["mem"])) % (1 << 64))):
+            if off + 8 > len(mb):
+                return None, "fixed-metadata buffer too small for its offsets"
+            mb[off:off + 8] = word_json(v)
+    for base, n in ((mem_base, len(b["mem"])), (word(b["mbuff_base"]), len(mb))):
+        if n and base < FICT_STACK + 4096 and base + n > FICT_STACK - 4096:
+            return None, "a buffer lies where the specification puts its fictitious stack"
+    vm = "mbuff" if mb else ("raw" if b["mem"] else "nodata")
+    case = {"id": ["test", idx, 0], "fam": "repo-tests", "vm": vm, "prog": segs(prog),
+            "pkt": {"base": b["mem_base"] if b["mem"] else word_json(0), "bytes": b["mem"]},
+            "mbuf": {"base": b["mbuff_base"] if mb else word_json(0), "bytes": mb},
+            "fixed": [0, 8], "allow": [], "helpers": sorted(b["helpers"]), "calc": b["calc"],
+            "fsz": {"dflt": 256, "tab": sorted(b["frames"]) if b["calc"] else []},
+            "budget": 0, "dev": [], "warm": 0, "wf": True}
+    return [{"e": "estart", "case": case, "engine": b["engine"]},
+            {"e": "eend", "engine": b["engine"], "k": end["k"], "val": end["val"], "pkt": end["mem"], "mbuf": end["mbuff"]}], None
+
+
+def convert(path, idx, engines=False):
     """-> (events, None) or (None, reason it is set aside)"""
     lines = [json.loads(x) for x in open(path).read().splitlines() if x.strip()]
     if not lines or lines[0]["e"] != "begin" or lines[-1]["e"] != "end":
         return None, "incomplete recording"
     b, end = lines[0], lines[-1]
     body = lines[1:-1]
+    eng = b.get("engine", "interp")
+    if (eng != "interp") != bool(engines) or (engines and engines is not True and eng not in engines):
+        return None, "other engine"
+    if engines:
+        return convert_engine(b, end, idx)
     if b["allowed"]:
         return None, "registered ranges (their bytes are not captured)"
     if end["truncated"]:
@@ -105,14 +147,15 @@ def convert_verdicts(d, out_path):
     return n, acc, skipped
 
 
-def convert_dir(d, out_prefix, chunks=4):
+def convert_dir(d, out_prefix, chunks=4, engines=False):
     files = sorted(f for f in os.listdir(d) if not f.startswith("verdicts-"))
     aside = {}
     runs = []
     for idx, f in enumerate(files):
-        ev, why = convert(os.path.join(d, f), idx)
+        ev, why = convert(os.path.join(d, f), idx, engines)
         if ev is None:
-            aside[why] = aside.get(why, 0) + 1
+            if why != "other engine":
+                aside[why] = aside.get(why, 0) + 1
         else:
             runs.append((f, ev))
     paths = []
